@@ -118,14 +118,14 @@ def run(ctx):
     # exhaustive small
     for n in (1, 2):
         U = seq_universe(D, n)
-        kmax = ctx.budget(2, 3) if n == 2 else 3
+        kmax = ctx.budget(3, 4) if n == 2 else 3
         for k in range(0, kmax + 1):
             for sub in itertools.combinations(U, k):
                 one(ctx, D, n, list(sub), pending, keep)
                 if len(pending) > 300:
                     flush(ctx, pending)
     ctx.exhaustive = True
-    ctx.extra['exhaustive_bound'] = 'domain {0,1,2}: n=1 all sets of <=3 sequences; n=2 all sets of <=%d sequences' % ctx.budget(2, 3)
+    ctx.extra['exhaustive_bound'] = 'domain {0,1,2}: n=1 all sets of <=3 sequences; n=2 all sets of <=%d sequences' % ctx.budget(3, 4)
     # random larger, biased towards reducible families
     for _ in range(ctx.budget(350, 6000)):
         if ctx.expired():
